@@ -1,11 +1,24 @@
 // Instrumented-par driver (compiled by shimkit against a scratch copy of go-internal in which
-// par/work.go uses vshim).  Reads one scenario per line on stdin, runs it under the controlled
-// scheduler, prints the trace.
+// par/work.go uses vshim).  Reads one request per line on stdin, runs it under the controlled
+// scheduler, prints the trace(s).
 //
-//	work <n> <initial items, comma separated> <graph: item>child,child;item>...> <seed|c:choices>
-//	cache <goroutines: each a ';'-separated list of ops d<key> / g<key>, goroutines separated by '|'> <seed|c:choices>
+//	work <n> <initial items, comma separated | -> <graph: item>child,child;item>... | -> <sched>
+//	cache <goroutines: each a ';'-separated list of ops d<key> / g<key>, goroutines separated by '|'> <sched>
+//	dfs <preemption bound> <max schedules> work <n> <init> <graph>
+//	dfs <preemption bound> <max schedules> cache <goroutines>
 //
-// Output per scenario: one line `TRACE <event>|<event>|... END <done|deadlock|aborted>`.
+// <sched> is a seed (uniform random choice among the enabled tasks and for rand.Intn),
+// `s:<seed>:<pct>` (keep running the current task with probability pct%), or `c:<k>,<k>,…`
+// (recorded choice list: one entry per scheduling point with more than one enabled task and one
+// per rand.Intn call, in order; the default beyond the list is "keep running the current task").
+//
+// Output per execution: one line
+//
+//	TRACE <event>|<event>|... END <done|deadlock|aborted> CH c:<choices taken>
+//
+// where the events are vshim events (`p0 t1 lock m0`, …) interleaved with `p0 t0 B <ids>` pseudo
+// events: at that scheduling point exactly the listed live tasks were not enabled.
+// `dfs` prints one such line per explored schedule and then `DFSEND <count> <exhausted|truncated>`.
 package main
 
 import (
@@ -20,33 +33,138 @@ import (
 	"github.com/rogpeppe/go-internal/vshim"
 )
 
-func chooser(spec string) func(step int, enabled []int, s *vshim.Sched) int {
-	if strings.HasPrefix(spec, "c:") {
-		var choices []int
+// ---- choice sources
+
+type choicePoint struct {
+	n, chosen, def int
+	costly         bool // choosing something else than def is a preemption
+	preBefore      int  // preemptions before this point
+}
+
+// chooser resolves scheduling and rand.Intn choices for one execution and records them.
+type chooser struct {
+	prefix  []int
+	rnd     *rand.Rand
+	sticky  int // percent
+	cps     []choicePoint
+	preempt int
+}
+
+func (c *chooser) choose(n, def int, costly bool) int {
+	k := def
+	switch {
+	case len(c.cps) < len(c.prefix):
+		k = c.prefix[len(c.cps)] % n
+	case c.rnd != nil:
+		if !(costly && c.rnd.Intn(100) < c.sticky) {
+			k = c.rnd.Intn(n)
+		}
+	}
+	c.cps = append(c.cps, choicePoint{n, k, def, costly, c.preempt})
+	if costly && k != def {
+		c.preempt++
+	}
+	return k
+}
+
+func (c *chooser) install(s *vshim.Sched) {
+	s.Choose = func(step int, enabled []int, _ *vshim.Sched) int {
+		def, costly := 0, false
+		if step > 0 {
+			cur := vshim.CurTask()
+			for i, id := range enabled {
+				if id == cur {
+					def, costly = i, true
+				}
+			}
+		}
+		return c.choose(len(enabled), def, costly)
+	}
+	s.OnSched = func(s *vshim.Sched, alive, enabled []int) {
+		en := map[int]bool{}
+		for _, id := range enabled {
+			en[id] = true
+		}
+		var blocked []string
+		for _, id := range alive {
+			if !en[id] {
+				blocked = append(blocked, strconv.Itoa(id))
+			}
+		}
+		arg := "-"
+		if len(blocked) > 0 {
+			arg = strings.Join(blocked, ".")
+		}
+		s.Trace = append(s.Trace, vshim.Event{Op: "B", Args: []string{arg}})
+	}
+	vshim.RandChoose = func(n int) int { return c.choose(n, 0, false) }
+}
+
+func (c *chooser) taken() string {
+	parts := make([]string, len(c.cps))
+	for i, cp := range c.cps {
+		parts[i] = strconv.Itoa(cp.chosen)
+	}
+	return "c:" + strings.Join(parts, ",")
+}
+
+func parseSched(spec string) *chooser {
+	c := &chooser{}
+	switch {
+	case strings.HasPrefix(spec, "c:"):
 		for _, f := range strings.Split(spec[2:], ",") {
 			if f == "" {
 				continue
 			}
 			v, _ := strconv.Atoi(f)
-			choices = append(choices, v)
+			c.prefix = append(c.prefix, v)
 		}
-		i := 0
-		return func(step int, enabled []int, s *vshim.Sched) int {
-			if i < len(choices) {
-				c := choices[i] % len(enabled)
-				i++
-				return c
-			}
-			return 0
+	case strings.HasPrefix(spec, "s:"):
+		f := strings.Split(spec[2:], ":")
+		seed, _ := strconv.ParseInt(f[0], 10, 64)
+		c.rnd = rand.New(rand.NewSource(seed))
+		if len(f) > 1 {
+			c.sticky, _ = strconv.Atoi(f[1])
 		}
+	default:
+		seed, _ := strconv.ParseInt(spec, 10, 64)
+		c.rnd = rand.New(rand.NewSource(seed))
 	}
-	seed, _ := strconv.ParseInt(spec, 10, 64)
-	r := rand.New(rand.NewSource(seed))
-	vshim.RandChoose = func(n int) int { return r.Intn(n) }
-	return func(step int, enabled []int, s *vshim.Sched) int { return r.Intn(len(enabled)) }
+	return c
 }
 
-func finish(s *vshim.Sched) string {
+// next computes the prefix of the next schedule in depth-first order (nil when exhausted).
+func next(cps []choicePoint, bound int) []int {
+	for i := len(cps) - 1; i >= 0; i-- {
+		cp := cps[i]
+		if cp.costly && cp.preBefore+1 > bound {
+			continue
+		}
+		// candidates in order: def, then 0..n-1 without def
+		order := []int{cp.def}
+		for k := 0; k < cp.n; k++ {
+			if k != cp.def {
+				order = append(order, k)
+			}
+		}
+		pos := 0
+		for j, k := range order {
+			if k == cp.chosen {
+				pos = j
+			}
+		}
+		if pos+1 < len(order) {
+			prefix := make([]int, 0, i+1)
+			for _, q := range cps[:i] {
+				prefix = append(prefix, q.chosen)
+			}
+			return append(prefix, order[pos+1])
+		}
+	}
+	return nil
+}
+
+func finish(s *vshim.Sched, c *chooser) string {
 	var ev []string
 	for _, e := range s.Trace {
 		ev = append(ev, e.String())
@@ -57,10 +175,12 @@ func finish(s *vshim.Sched) string {
 	} else if s.Aborted {
 		end = "aborted"
 	}
-	return "TRACE " + strings.Join(ev, "|") + " END " + end
+	return "TRACE " + strings.Join(ev, "|") + " END " + end + " CH " + c.taken()
 }
 
-func runWork(f []string) string {
+// ---- scenarios
+
+func runWork(f []string, c *chooser) string {
 	n, _ := strconv.Atoi(f[1])
 	children := map[string][]string{}
 	if len(f) > 3 && f[3] != "-" {
@@ -72,7 +192,7 @@ func runWork(f []string) string {
 		}
 	}
 	s := vshim.NewSched()
-	s.Choose = chooser(f[4])
+	c.install(s)
 	s.MaxSteps = 20000
 	s.SpawnProc(0, func() {
 		var w par.Work
@@ -92,27 +212,27 @@ func runWork(f []string) string {
 		vshim.Note("do-return")
 	})
 	s.Run()
-	return finish(s)
+	return finish(s, c)
 }
 
-func runCache(f []string) string {
+func runCache(f []string, c *chooser) string {
 	s := vshim.NewSched()
-	s.Choose = chooser(f[2])
+	c.install(s)
 	s.MaxSteps = 20000
-	var c par.Cache
+	var ch par.Cache
 	calls := map[string]int{}
 	for gi, g := range strings.Split(f[1], "|") {
 		ops := strings.Split(g, ";")
 		s.SpawnProc(gi, func() {
 			for _, op := range ops {
-				if op == "" {
+				if op == "" || op == "-" {
 					continue
 				}
 				key := op[1:]
 				switch op[0] {
 				case 'd':
 					vshim.Note("do-call", key)
-					v := c.Do(key, func() any {
+					v := ch.Do(key, func() any {
 						vshim.Step("f-enter", key)
 						calls[key]++
 						v := fmt.Sprintf("%s#%d", key, calls[key])
@@ -122,20 +242,30 @@ func runCache(f []string) string {
 					vshim.Note("do-return", key, fmt.Sprint(v))
 				case 'g':
 					vshim.Note("get-call", key)
-					v := c.Get(key)
+					v := ch.Get(key)
 					vshim.Note("get-return", key, fmt.Sprint(v))
 				}
 			}
 		})
 	}
 	s.Run()
-	return finish(s)
+	return finish(s, c)
+}
+
+func runScenario(f []string, c *chooser) string {
+	switch {
+	case f[0] == "work" && len(f) >= 4:
+		return runWork(f, c)
+	case f[0] == "cache" && len(f) >= 2:
+		return runCache(f, c)
+	}
+	return "bad-scenario"
 }
 
 func main() {
 	in := bufio.NewScanner(os.Stdin)
 	in.Buffer(make([]byte, 1<<20), 1<<24)
-	out := bufio.NewWriter(os.Stdout)
+	out := bufio.NewWriterSize(os.Stdout, 1<<20)
 	defer out.Flush()
 	for in.Scan() {
 		f := strings.Fields(in.Text())
@@ -144,9 +274,32 @@ func main() {
 		}
 		switch {
 		case f[0] == "work" && len(f) == 5:
-			fmt.Fprintln(out, runWork(f))
+			fmt.Fprintln(out, runWork(f, parseSched(f[4])))
 		case f[0] == "cache" && len(f) == 3:
-			fmt.Fprintln(out, runCache(f))
+			fmt.Fprintln(out, runCache(f, parseSched(f[2])))
+		case f[0] == "dfs" && len(f) >= 5:
+			bound, _ := strconv.Atoi(f[1])
+			max, _ := strconv.Atoi(f[2])
+			var prefix []int
+			count, status := 0, "exhausted"
+			for {
+				c := &chooser{prefix: prefix}
+				line := runScenario(f[3:], c)
+				fmt.Fprintln(out, line)
+				count++
+				if line == "bad-scenario" {
+					break
+				}
+				prefix = next(c.cps, bound)
+				if prefix == nil {
+					break
+				}
+				if count >= max {
+					status = "truncated"
+					break
+				}
+			}
+			fmt.Fprintf(out, "DFSEND %d %s\n", count, status)
 		default:
 			fmt.Fprintln(out, "bad-scenario")
 		}
